@@ -123,7 +123,7 @@ func check(c Case) *vfrun.Failure {
 		}
 		ch := make(chan res, 1)
 		ctx, cancel := context.WithCancel(context.Background())
-		before := sched.GqlgenIDs("vh/c13.")
+		before := sched.GqlgenIDs("vh/vfrun.", "pgregory.net/rapid.")
 		go func() {
 			out, rej := s.DoAll(ctx, e, c.Query, c.OpName, c.Variables, 500)
 			ch <- res{out, rej}
@@ -132,7 +132,7 @@ func check(c Case) *vfrun.Failure {
 		select {
 		case r = <-ch:
 		case <-time.After(5 * time.Second):
-			st, running := sched.SurvivorsIgnoring(2*time.Second, before, "vh/c13.")
+			st, running := sched.SurvivorsIgnoring(2*time.Second, before, "vh/vfrun.", "pgregory.net/rapid.")
 			cancel()
 			if e.Inflight() > 0 || running || len(st) == 0 {
 				return vfrun.Failf("harness.inconclusive", "[%s] payload sequence not finished after 5s, no stable witness", s.P.Vec)
